@@ -241,7 +241,8 @@ def run(case):
         ok, r = call(out, op, lambda: fn(inp))
         if ok:
             got = to_images(r, c["out_order"])
-            out.check(np.asarray(r).dtype == dt, f"{op}:return_dtype", f"{np.asarray(r).dtype} vs {dt}")
+            if op != "bin":  # selections and permutations keep the pixel type; block means may legitimately be stored in a wider type
+                out.check(np.asarray(r).dtype == dt, f"{op}:return_dtype", f"{np.asarray(r).dtype} vs {dt}")
             if op == "bin":
                 if out.check(got.shape[0] == n and got.shape[1] >= hh and got.shape[2] >= ww and got.shape[1] == -(-h // f_) and got.shape[2] == -(-w // f_),
                              "bin:shape", f"{got.shape} for {I.shape} factor {f_}"):
